@@ -8,6 +8,7 @@ Proofs/Prune.lean.  `H` (SHA-256) is an arbitrary function: no hash assumption i
 import TonVerif.Proofs.CellSpec
 import TonVerif.Proofs.Prune
 import TonVerif.Proofs.OrdCell
+import TonVerif.Proofs.PruneWF
 
 namespace TonVerif.Properties.C02
 open TonVerif TonVerif.Model TonVerif.Proofs.CellSpec
@@ -59,14 +60,27 @@ theorem c02_prune_invariant_spec (H : Bytes → Bytes) (d : Nat) (t t' : Cell) (
       ∀ l, l < d → s'.hashAt l = s.hashAt l ∧ s'.depthAt l = s.depthAt l ∧ s'.mask % 2 ^ l = s.mask % 2 ^ l :=
   prune_invariant H d t t' s hrel hs
 
-/-- MODEL LEVEL (what the library reports): for spec-valid `t` and `t'` related by pruning at Merkle depth `d`,
-both cells can be constructed and `get_hash(l)`, `get_depth(l)` and `level_mask & (2^l - 1)` coincide for all
-`l < d`. -/
-theorem c02_prune_invariant (H : Bytes → Bytes) (d : Nat) (t t' : Cell) (wf : TreeWF H t) (wf' : TreeWF H t')
-    (hrel : PruneRel H d t t') :
+/-- VALIDITY OF THE PRUNED TREE (no assumption on `t'`). Let `t` be spec-valid, living under `d ≥ 1` Merkle cells, with
+no level above its Merkle nesting (`level_mask < 2^(d-1)`; for `d = 1`: a level-0 tree, e.g. a block or a shard state).
+Then EVERY pruning `t'` of `t` is spec-valid: the pruned-branch cells have `16 + 272·k ≤ 832` bits, level mask
+1..7 and no references; kept cells keep data and reference count; and the depth limit 1023 is preserved because at
+every level `t'` is at most as deep as `t`.  Hence `t'` can be constructed (`c02_constructible`). -/
+theorem c02_prune_valid (H : Bytes → Bytes) (d : Nat) (t t' : Cell) (s : Spec.SInfo) (hd : 1 ≤ d) (wf : TreeWF H t)
+    (hs : specInfo H t = some s) (hlev : s.mask < 2 ^ (d - 1)) (hrel : PruneRel H d t t') :
+    TreeWF H t' ∧ Cell.info H t' ≠ none ∧ ∀ s', specInfo H t' = some s' → ∀ l, s'.depthAt l ≤ s.depthAt l := by
+  obtain ⟨wf', hle⟩ := TonVerif.Proofs.PruneWF.prune_treeWF H d t t' s hd wf hs hlev hrel
+  exact ⟨wf', c02_constructible H t' wf', hle⟩
+
+/-- MODEL LEVEL (what the library reports): for a spec-valid `t` (at Merkle depth `d ≥ 1`, `level_mask < 2^(d-1)`) and
+ANY pruning `t'` of it, both cells can be constructed and `get_hash(l)`, `get_depth(l)` and
+`level_mask & (2^l - 1)` coincide for all `l < d`.  Validity of `t'` is derived (`c02_prune_valid`), not assumed. -/
+theorem c02_prune_invariant (H : Bytes → Bytes) (d : Nat) (t t' : Cell) (hd : 1 ≤ d) (wf : TreeWF H t)
+    (hlev : ∀ i, Cell.info H t = some i → i.mask < 2 ^ (d - 1)) (hrel : PruneRel H d t t') :
     ∃ i i', Cell.info H t = some i ∧ Cell.info H t' = some i' ∧
       ∀ l, l < d → i'.getHash l = i.getHash l ∧ i'.getDepth l = i.getDepth l ∧ i'.mask % 2 ^ l = i.mask % 2 ^ l := by
   obtain ⟨i, s, hi, hs, hm, hl⟩ := tree_agrees H t wf
+  have hlev' : s.mask < 2 ^ (d - 1) := by rw [← hm]; exact hlev i hi
+  obtain ⟨wf', _, _⟩ := c02_prune_valid H d t t' s hd wf hs hlev' hrel
   obtain ⟨i', s', hi', hs', hm', hl'⟩ := tree_agrees H t' wf'
   obtain ⟨s'', hs'', hinv⟩ := prune_invariant H d t t' s hrel hs
   rw [hs'] at hs''; cases hs''
@@ -74,13 +88,14 @@ theorem c02_prune_invariant (H : Bytes → Bytes) (d : Nat) (t t' : Cell) (wf : 
   obtain ⟨h1, h2, h3⟩ := hinv l hlt
   exact ⟨by rw [(hl' l).1, (hl l).1, h1], by rw [(hl' l).2, (hl l).2, h2], by rw [hm', hm, h3]⟩
 
-/-- The headline case `d = 1`: replacing any subtrees of `t` by pruned-branch cells carrying their hash and
-depth leaves the level-0 hash and depth of the enclosing cell `t` unchanged (apply it to every enclosing cell:
-`PruneRel` descends through kept cells). -/
-theorem c02_prune_level0 (H : Bytes → Bytes) (t t' : Cell) (wf : TreeWF H t) (wf' : TreeWF H t')
-    (hrel : PruneRel H 1 t t') :
+/-- The headline case `d = 1`: replacing any subtrees of a spec-valid level-0 tree `t` by pruned-branch cells carrying
+their hash and depth gives a constructible tree and leaves the level-0 hash and depth of the enclosing cell `t`
+unchanged (apply it to every enclosing cell: `PruneRel` descends through kept cells). -/
+theorem c02_prune_level0 (H : Bytes → Bytes) (t t' : Cell) (wf : TreeWF H t)
+    (hlev : ∀ i, Cell.info H t = some i → i.mask = 0) (hrel : PruneRel H 1 t t') :
     ∃ i i', Cell.info H t = some i ∧ Cell.info H t' = some i' ∧ i'.getHash 0 = i.getHash 0 ∧ i'.getDepth 0 = i.getDepth 0 := by
-  obtain ⟨i, i', hi, hi', h⟩ := c02_prune_invariant H 1 t t' wf wf' hrel
+  obtain ⟨i, i', hi, hi', h⟩ := c02_prune_invariant H 1 t t' (Nat.le_refl _) wf
+    (fun i hi => by rw [hlev i hi]; decide) hrel
   exact ⟨i, i', hi, hi', (h 0 (by omega)).1, (h 0 (by omega)).2.1⟩
 
 /-- Every non-pruned spec-valid cell may be pruned at every Merkle depth 1..3 once `H` returns 32 bytes
@@ -110,8 +125,26 @@ theorem leaf0_nodeWF : NodeWF toyH .ordinary [true, false] [] := by
   rw [this, TonVerif.Proofs.OrdCell.plainDepthAt_zero]
   decide
 
-example : PruneRel toyH 1 tree0 tree0Pruned ∧ ∃ s, specInfo toyH tree0 = some s := by
-  constructor
+/-- the two-cell example tree is spec-valid (hypothesis of `c02_prune_valid`) -/
+theorem tree0_wf : TreeWF toyH tree0 := by
+  unfold tree0 leaf0
+  rw [TreeWF]
+  refine ⟨⟨?_, trivial⟩, .ordinary, [sLeaf0], by decide, by simp [specInfos, specInfo, kindOf, sLeaf0], ?_⟩
+  · rw [TreeWF]
+    exact ⟨trivial, .ordinary, [], by decide, by simp [specInfos], leaf0_nodeWF⟩
+  · have hm : Spec.nodeMask .ordinary [true] [sLeaf0] = 0 := by decide +kernel
+    refine ⟨by decide, by simp, ?_, ?_, by simp, by simp, by simp, by simp⟩
+    · intro c hc; simp at hc; subst hc; decide +kernel
+    · intro _ l
+      rw [node_plain toyH .ordinary _ _ (by decide)]
+      simp only [hm]
+      rw [TonVerif.Proofs.OrdCell.plainDepthAt_zero]
+      decide +kernel
+
+/-- all hypotheses of `c02_prune_valid` / `c02_prune_level0` hold for the two-cell tree with its child pruned -/
+example : PruneRel toyH 1 tree0 tree0Pruned ∧ TreeWF toyH tree0 ∧
+    ∃ s, specInfo toyH tree0 = some s ∧ s.mask < 2 ^ (1 - 1) := by
+  refine ⟨?_, tree0_wf, ?_⟩
   · unfold tree0 tree0Pruned
     rw [PruneRel]
     refine Or.inr ⟨.ordinary, _, by decide, rfl, ?_⟩
@@ -121,6 +154,7 @@ example : PruneRel toyH 1 tree0 tree0Pruned ∧ ∃ s, specInfo toyH tree0 = som
     rw [PruneRel]
     refine Or.inl ⟨sLeaf0, by simp [specInfo, specInfos, kindOf, sLeaf0], ?_, rfl⟩
     exact c02_prunable toyH toyH_32 .ordinary _ [] (by decide) leaf0_nodeWF 1 (by omega) (by omega)
-  · simp [tree0, leaf0, specInfo, specInfos, kindOf]
+  · refine ⟨Spec.node toyH .ordinary [true] [sLeaf0], by simp [tree0, leaf0, specInfo, specInfos, kindOf, sLeaf0], ?_⟩
+    decide +kernel
 
 end TonVerif.Properties.C02
